@@ -17,6 +17,7 @@ Section IrInd.
   Hypothesis Hmap : forall ke, P ke -> forall ve, P ve -> P (IMapComp ke ve).
   Hypothesis Htup : forall es, Forall P es -> P (ITup es).
   Hypothesis Hcall : forall c fw, P (ICall c fw).
+  Hypothesis Hlit : P ILit.
   Hypothesis Hunion : forall idc es, Forall P es -> P (IUnion idc es).
   Fixpoint ir_ind' (e: ir) : P e :=
     let go := fix go (es: list ir) : Forall P es :=
@@ -29,6 +30,7 @@ Section IrInd.
     | IMapComp ke ve => Hmap ke (ir_ind' ke) ve (ir_ind' ve)
     | ITup es => Htup es (go es)
     | ICall c fw => Hcall c fw
+    | ILit => Hlit
     | IUnion idc es => Hunion idc es (go es)
     end.
 End IrInd.
@@ -124,7 +126,7 @@ Section PackLabels.
   Lemma pack_labels_all : forall v, P_lab v.
   Proof.
     induction v as [z | | z | l0 | k l0 xs IH | k l0 kvs IH | c l0 fs IH] using lv_ind';
-      intros call e; induction e as [| | | e' IHe | | e' IHe | ke IHk ve IHv | es IHes | c' fw | idc es IHes] using ir_ind';
+      intros call e; induction e as [| | | e' IHe | | e' IHe | ke IHk ve IHv | es IHes | c' fw | | idc es IHes] using ir_ind';
       intros n Ho Hn;
       try (rewrite rp_id; apply ret_old; assumption);
       try (rewrite rp_opt; first [apply ret_old; reflexivity | apply IHe; assumption]; fail);
@@ -222,7 +224,7 @@ Section UnpackLabels.
   Lemma unpack_labels_all : forall w, U_lab w.
   Proof.
     induction w as [z | | z | l0 | k l0 xs IH | k l0 kvs IH | c l0 fs IH] using lv_ind';
-      intros t; induction t as [| lk | | | t' IHt | o t' IHt | t' IHt | ts IHts | o kt IHk vt IHv | c0 | tw IHw | us IHus |] using ty_ind';
+      intros t; induction t as [| lk | | | t' IHt | o t' IHt | t' IHt | ts IHts | o kt IHk vt IHv | c0 | tw IHw | us IHus | | | dd] using ty_ind';
       intros n Ho Hn;
       try (apply IHw; assumption);
       try (cbn [cu]; rewrite ru_opt; first [apply ret_old; reflexivity | apply IHt; assumption]; fail);
@@ -231,7 +233,9 @@ Section UnpackLabels.
            match goal with |- context [cls_fits ?a ?b] => destruct (cls_fits a b) end;
            [apply H1; assumption | apply IHr1]; fail);
       try (simpl; apply ret_old; assumption; fail);
-      try (simpl; split; [lia | intros l []]; fail).
+      try (simpl; split; [lia | intros l []]; fail);
+      try (destruct dd as [| kk]; [| destruct kk]; simpl;
+           (split; [lia | intros l Hl; simpl in Hl; first [contradiction | destruct Hl as [<- | []]; right; lia]]); fail).
     - (* VSeq, TSeq *)
       simpl.
       assert (Hxs: Forall (fun x => forall m, n0 <= m ->
